@@ -32,9 +32,7 @@ structure Persist (C : Crypto) (c : Core) (d : Disk) (hf : Header) (a0 : Abs) (e
   oplog : OpInv c.oplog d.oplog.toList hf es
   shape : HdrShape c.header
   forkU : U64 c.tree.fork
-
-/-- digests of root lists are 32 bytes -/
-def TreeWF (C : Crypto) : Prop := ∀ l, (C.tree l).length = 32
+  hfShape : HdrShape hf
 
 /-- size limits of a call beyond `Valid`: what the on-disk formats can represent -/
 def Limits (a : Abs) : Op → Prop
@@ -56,62 +54,6 @@ theorem trace_snoc (C : Crypto) (a0 a a' : Abs) (es : List Entry) (e : Entry) (h
   induction ht with
   | nil a => exact Trace.cons a a' a' e [] hs hsm (Trace.nil a')
   | cons a a1 a2 e0 es0 h1 h2 _ ih => exact Trace.cons a a1 a' e0 (es0 ++ [e]) h1 h2 (ih hs)
-
-/-! ### dirty pages -/
-
-theorem rangeDiffers_true (bits : Array Bool) (v : Bool) : ∀ (n start i : Nat), start ≤ i → i < start + n →
-    bits.getD i false ≠ v → Bitfield.rangeDiffers bits v start n = true := by
-  intro n
-  induction n with
-  | zero => intro start i h1 h2; omega
-  | succ n ih =>
-    intro start i h1 h2 hne
-    simp only [Bitfield.rangeDiffers, Bool.or_eq_true, bne_iff_ne, ne_eq]
-    by_cases hi : i = start
-    · subst hi; exact Or.inl hne
-    · exact Or.inr (ih (start + 1) i (by omega) (by omega) hne)
-
-theorem setRange_dirty (b : Bitfield) (start len : Nat) (v : Bool) :
-    (∀ p ∈ b.dirty, p ∈ (b.setRange start len v).dirty)
-      ∧ (∀ i, (b.setRange start len v).get i ≠ b.get i → i / Spec.pageBits ∈ (b.setRange start len v).dirty) := by
-  have hdirty : (b.setRange start len v).dirty
-      = b.dirty ++ (Bitfield.changedPages b.bits v start len).filter fun p => !b.dirty.contains p := rfl
-  refine ⟨fun p hp => by rw [hdirty]; exact List.mem_append.mpr (Or.inl hp), fun i hne => ?_⟩
-  rw [Bitfield.get_setRange] at hne
-  have hB : Spec.pageBits = 32768 := rfl
-  by_cases hin : start ≤ i ∧ i < start + len
-  · simp only [hin, and_self, ite_true] at hne
-    have hbit : b.bits.getD i false ≠ v := fun e => hne (by simp only [Bitfield.get]; exact e.symm)
-    have hlen : len ≠ 0 := by omega
-    have hmem : i / Spec.pageBits ∈ Bitfield.changedPages b.bits v start len := by
-      simp only [Bitfield.changedPages, hlen, ite_false]
-      apply List.mem_filterMap.mpr
-      refine ⟨i / Spec.pageBits - start / Spec.pageBits, ?_, ?_⟩
-      · apply List.mem_range.mpr
-        rw [hB]; omega
-      · have hp : start / Spec.pageBits + (i / Spec.pageBits - start / Spec.pageBits) = i / Spec.pageBits := by
-          rw [hB]; omega
-        rw [hp]
-        have hr := rangeDiffers_true b.bits v
-          (min (start + len) ((i / Spec.pageBits + 1) * Spec.pageBits) - max start (i / Spec.pageBits * Spec.pageBits))
-          (max start (i / Spec.pageBits * Spec.pageBits)) i (by rw [hB]; omega) (by rw [hB]; omega) hbit
-        simp only [hr, ite_true]
-    rw [hdirty]
-    by_cases hc : b.dirty.contains (i / Spec.pageBits) = true
-    · exact List.mem_append.mpr (Or.inl (by simpa using hc))
-    · exact List.mem_append.mpr (Or.inr (List.mem_filter.mpr ⟨hmem, by simpa using hc⟩))
-  · simp only [hin, ite_false] at hne
-    exact absurd rfl hne
-
-/-- the dirty invariant survives a range update -/
-theorem dirty_setRange (b : Bitfield) (f : File) (start len : Nat) (v : Bool)
-    (h : ∀ i, b.get i ≠ (Bitfield.ofFile f).get i → i / Spec.pageBits ∈ b.dirty) :
-    ∀ i, (b.setRange start len v).get i ≠ (Bitfield.ofFile f).get i → i / Spec.pageBits ∈ (b.setRange start len v).dirty := by
-  obtain ⟨m1, m2⟩ := setRange_dirty b start len v
-  intro i hne
-  by_cases hsame : (b.setRange start len v).get i = b.get i
-  · exact m1 _ (h i (by rw [← hsame]; exact hne))
-  · exact m2 i hsame
 
 /-! ### the mutating calls up to their flush decision -/
 
@@ -147,7 +89,8 @@ theorem persist_append_pre (C : Crypto) (c c1 : Core) (d d1 : Disk) (hf : Header
     hdrSecret := by rw [hsec, hsec2]; exact hp.hdrSecret
     oplog := by rw [hop, hdop]; exact opinv_append c.oplog d.oplog hf es entry hp.oplog hok
     shape := hshape
-    forkU := by rw [hfork]; exact hp.forkU }
+    forkU := by rw [hfork]; exact hp.forkU
+    hfShape := hp.hfShape }
 
 theorem persist_clear_pre (C : Crypto) (c c1 : Core) (d d1 : Disk) (hf : Header) (a0 a : Abs) (es : List Entry)
     (s e : Nat) (hse : s < e) (hp : Persist C c d hf a0 es a)
@@ -179,7 +122,8 @@ theorem persist_clear_pre (C : Crypto) (c c1 : Core) (d d1 : Disk) (hf : Header)
     hdrSecret := by rw [hsec, hsec2]; exact hp.hdrSecret
     oplog := by rw [hop, hdop]; exact opinv_append c.oplog d.oplog hf es _ hp.oplog hok
     shape := hshape
-    forkU := by rw [hctree]; exact hp.forkU }
+    forkU := by rw [hctree]; exact hp.forkU
+    hfShape := hp.hfShape }
 
 /-! ### the flush -/
 
@@ -292,21 +236,14 @@ theorem maybeFlush_persist (C : Crypto) (hC : HashWF C) (c : Core) (d : Disk) (h
         rw [hfile]
         exact opinv_flush c.oplog d.oplog hf es c.header hp.oplog (headerOK_of_shape _ hp.shape)
       shape := hp.shape
-      forkU := by simp only [Tree.flush]; exact hp.forkU }
+      forkU := by simp only [Tree.flush]; exact hp.forkU
+      hfShape := hp.shape }
   · -- no flush
     refine ⟨hf, a0, es, ?_⟩
     rw [applyAll_nil]
     exact { hp with }
 
 /-! ### every call keeps `Persist` -/
-
-theorem hdrShape_set (h : Header) (hs : HdrShape h) (rh sg : Bytes) (len cc : Nat) (h1 : rh.length ≤ 32) (h2 : sg.length ≤ 64)
-    (h3 : U64 len) (h4 : U64 cc) :
-    HdrShape { h with tree := { h.tree with rootHash := rh, signature := sg, length := len }, contiguous := cc } :=
-  ⟨hs.key, hs.ns, hs.mkey, hs.pk, hs.sk, hs.ud, hs.reorgs, hs.fork, h3, h1, h2, h4⟩
-
-theorem hdrShape_contig (h : Header) (hs : HdrShape h) (cc : Nat) (h4 : U64 cc) : HdrShape { h with contiguous := cc } :=
-  ⟨hs.key, hs.ns, hs.mkey, hs.pk, hs.sk, hs.ud, hs.reorgs, hs.fork, hs.len, hs.rootHash, hs.sig, h4⟩
 
 theorem persist_step (C : Crypto) (hC : HashWF C) (hS : SignWF C) (hTw : TreeWF C) (c : Core) (d : Disk) (hf : Header) (a0 a : Abs)
     (es : List Entry) (hrep : Rep C c d a) (hp : Persist C c d hf a0 es a) (op : Op) (hv : Valid a op) (hl : Limits a op) :
@@ -368,6 +305,52 @@ theorem persist_step (C : Crypto) (hC : HashWF C) (hS : SignWF C) (hTw : TreeWF 
       obtain ⟨hf', a0', es', hp2⟩ := maybeFlush_persist C hC c1 (d.applyAll j01) hf a0 _ _ hrep1 hp1
       rw [hstep]
       exact ⟨hf', a0', es', by rw [Journal.applyAll_append]; exact hp2⟩
+
+/-! ### close and reopen -/
+
+/-- `Hypercore::new` on the stores of a live core: the reopened core represents the same log and
+    satisfies the ghost invariant again (same ghosts) — so it can be used, closed and reopened again. -/
+theorem reopen_persist (C : Crypto) (hC : HashWF C) (hTw : TreeWF C) (c : Core) (d : Disk) (hf : Header) (a0 a : Abs)
+    (es : List Entry) (hrep : Rep C c d a) (hp : Persist C c d hf a0 es a) :
+    ∃ c', Core.openCore C none d = .ok (c', []) ∧ Rep C c' d a ∧ Persist C c' d hf a0 es a := by
+  obtain ⟨ost, hlog, hb, hebl⟩ := opinv_open c.oplog _ hf es hp.oplog
+  have hoks : ∀ e ∈ es, EntryOK e := by
+    obtain ⟨_, _, _, _, _, _, _, _, _, _, hok⟩ := hp.oplog
+    exact hok
+  obtain ⟨h', t', b', hopen, hinv, hs'⟩ := Reopen.reopen_full C hC hTw d ost hf es a0 a hlog hp.hfLen hp.hfSig
+    hp.hfShape hoks hp.fileNodes hp.fileBits hp.held0Lt hp.hfContig hp.small0 hp.trace
+  refine ⟨_, hopen, ?_, ?_⟩
+  · exact {
+      writer := by
+        show h'.secret.isSome = true
+        rw [hs', hp.hfSecret]; exact hrep.writer
+      tree := hinv.tree
+      nodes := hinv.nodes
+      mapwf := hinv.mapwf
+      bits := hinv.bits
+      heldLt := hinv.heldLt
+      contig := hinv.contig
+      data := hrep.data
+      small := hrep.small }
+  · exact {
+      trace := hp.trace
+      small0 := hp.small0
+      fileNodes := hp.fileNodes
+      fileBits := hp.fileBits
+      fileSize := hp.fileSize
+      held0Lt := hp.held0Lt
+      hfLen := hp.hfLen
+      hfSig := hp.hfSig
+      hfSecret := hs'.symm
+      hfContig := hp.hfContig
+      dirty := hinv.dirty
+      hdrLen := hinv.hdrLen
+      hdrSig := hinv.hdrSig
+      hdrSecret := rfl
+      oplog := opinv_congr c.oplog ost _ hf es hp.oplog hb hebl
+      shape := hinv.shape
+      forkU := hinv.forkU
+      hfShape := hp.hfShape }
 
 /-! ### the freshly created core -/
 
@@ -444,7 +427,8 @@ theorem init_both (C : Crypto) (pk sk : Bytes) (hpk : pk.length = 32) (hsk : sk.
         rw [hfile, ← hih]
         exact opinv_create _ (headerOK_of_shape _ hshape)
       shape := hdrShape_new pk sk hpk hsk
-      forkU := by show (0 : Nat) < 2 ^ 64; omega }
+      forkU := by show (0 : Nat) < 2 ^ 64; omega
+      hfShape := hdrShape_new pk sk hpk hsk }
 
 
 end HC.Persist
